@@ -2556,3 +2556,71 @@ func ruleNilListMeansAll(c *eng.Ctx) {
 	sort.Strings(bad)
 	c.Check(len(bad) == 0, R, eng.FuncName(fn)+"#whole-input", fn.Pos(), "all fields only for a nil list", "the whole metadata is handed back without MetadataFields having been found nil ("+strings.Join(bad, "; ")+"): an empty include list exports every field instead of none")
 }
+
+// ---------------------------------------------------------------------------------------------------------------
+// R20.9 an error handed up by a reader stays in the error chain.
+
+// R20.9 [C20]
+func ruleErrorChainKept(c *eng.Ctx) {
+	const R = "R20.9-ERROR-CHAIN-KEPT"
+	c.Rule(R, "in the top-level package and in epubdoc every fmt.Errorf that is given an error value formats it with %w (directly or in a helper that receives the cause as a parameter): the readers refuse DRM-protected and malformed files with sentinel errors (epubdoc.ErrDRMProtected, …) and callers of tabula.Open(...).Text() recognise the refusal with errors.Is, which %v and %s cut off", 20, 1)
+	n := 0
+	errT := types.Universe.Lookup("error").Type()
+	for _, fn := range c.P.ModuleFuncs() {
+		if fn.Pkg == nil || fn.Blocks == nil {
+			continue
+		}
+		sp := eng.ShortPath(fn.Pkg.Pkg.Path())
+		if sp != "" && sp != "tabula" && sp != "epubdoc" && !strings.Contains(sp, eng.PositivePkg) {
+			continue
+		}
+		for _, ci := range eng.CallsNamed(fn, true, "fmt.Errorf") {
+			args := ci.Common().Args
+			if len(args) < 2 {
+				continue
+			}
+			// variadic arguments: the elements stored into the []interface{} literal
+			nErr := 0
+			if sl, ok := args[1].(*ssa.Slice); ok {
+				if al, ok := sl.X.(*ssa.Alloc); ok {
+					for _, r := range *al.Referrers() {
+						ia, ok := r.(*ssa.IndexAddr)
+						if !ok {
+							continue
+						}
+						for _, rr := range *ia.Referrers() {
+							if st, ok := rr.(*ssa.Store); ok {
+								v := st.Val
+								if mi, ok := v.(*ssa.MakeInterface); ok {
+									v = mi.X
+								}
+								if ci, ok := v.(*ssa.ChangeInterface); ok {
+									v = ci.X
+								}
+								if types.Identical(v.Type(), errT) || types.Implements(v.Type(), errT.Underlying().(*types.Interface)) {
+									if !eng.IsNilConst(v) {
+										nErr++
+									}
+								}
+							}
+						}
+					}
+				}
+			}
+			if nErr == 0 {
+				continue
+			}
+			n++
+			format, isC := eng.ConstString(args[0])
+			key := fmt.Sprintf("%s#Errorf@%s", eng.FuncName(ci.Parent()), c.P.Pos(ci.Pos()))
+			if !isC {
+				c.Ok(R, key, ci.Pos(), "not evaluated: the format is not a constant")
+				continue
+			}
+			c.Check(strings.Count(format, "%w") >= 1, R, key, ci.Pos(), "the cause is wrapped with %w", "an error value is formatted into the message without %w (format "+strconv.Quote(format)+"): errors.Is and errors.As no longer find the reader's sentinel error behind it")
+		}
+	}
+	if n == 0 {
+		c.Undec(R, "tabula#errorf", token.NoPos, "no fmt.Errorf with an error argument found")
+	}
+}
